@@ -15,7 +15,7 @@ func init() {
 	register(&PropDef{ID: "C11", Title: "Scope close protocol: ordered events, commit xor rollback, waits for children", Rules: rulesC11,
 		Explanation: "Decided (structural necessary conditions, all paths of scope.(*Scope).Close and its helpers): R1 on every entry->return path of Close the events form the word guard, guard-under-lock, set-closed, BeforeClose, Wait, then exactly one of (BeforeRollback Rollback AfterRollback) / (BeforeCommit Commit AfterCommit), then close(); close() fires AfterClose and then signs off from the parent iff one is registered; R2 the rollback triple is on the non-nil edge of that Wait's result and the commit triple on its nil edge; R3 the double-close guard dominates every event, the closed flag is set under the scope mutex after a guard evaluated under that mutex, and Kill/Stop/AppendError test the flag first; R4 Scope.Wait waits (on every path) for the same WaitGroup that AddTasks feeds and DoneTask drains, and AddTasks refuses a finished scope without adding; R5 every return of Close returns Err() evaluated after the last trigger; R6 listeners are kept in append order, Trigger walks them from the first in order and returns the first error, a child event scope triggers its parent's listeners first; R7 a child scope defaults to the parent's own context, and an isolated context uses its parent only through read-only methods and is stopped/killed by its watcher on the parent's done branch; R8 Kill of a context records an error on every path (so a kill in a child sharing the parent's context fails the parent, whatever happened before). " +
 			"R4 also: Close reaches Wait on every path (a scope that already failed still waits for its tasks and children), and scope.NewChild calls parent.AddTasks on every path (children with their own context are counted too). " +
-			"Added in round 7: R3 recognises the closed flag when it is read through a component of a private multi-result accessor (closed, stack := scp.closeState()). " +
+			"Added in round 7: R3 recognises the closed flag when it is read through a component of a private multi-result accessor (closed, stack := scp.closeState()), and a double-close guard written as one CompareAndSwap(&closed, clear, set) whose failing edge panics (test-and-set in one step stands for guard - lock - guard - set). " +
 			"NOT decided: outcomes under all interleavings of add/done/kill/close issued from other goroutines; listener side effects.",
 	})
 }
@@ -282,9 +282,22 @@ func rulesC11(c *Ctx) {
 	words, over := eventWords(closeF, classify)
 	wantR := "guard guard set-closed BeforeClose Wait BeforeRollback Rollback AfterRollback close()"
 	wantC := "guard guard set-closed BeforeClose Wait BeforeCommit Commit AfterCommit close()"
+	// a guard that is test-and-set in one step (CompareAndSwap(&closed, clear, set), panic on its
+	// failing edge - R3) stands for "guard guard set-closed"
+	guardSets := false
+	eachInstr(guardF, func(_ *ssa.BasicBlock, _ int, in ssa.Instruction) {
+		if cl, ok := in.(*ssa.Call); ok && flagSetInstr(in) == "scope.Scope."+sro.closed {
+			if cal := cl.Call.StaticCallee(); cal != nil && strings.HasPrefix(cal.Name(), "CompareAndSwap") {
+				guardSets = true
+			}
+		}
+	})
 	gotR, gotC := false, false
 	var other []string
 	for _, w := range words {
+		if guardSets && strings.HasPrefix(w, "guard BeforeClose ") {
+			w = "guard guard set-closed " + strings.TrimPrefix(w, "guard ")
+		}
 		switch w {
 		case wantR:
 			gotR = true
